@@ -23,9 +23,18 @@ Definition c_pollp (extra : N) (n : N) : bool :=
 Definition c_stop_at (stopk : Z) (k : nat) : bool := ((0 <=? stopk) && (stopk <=? Z.of_nat k))%Z.
 
 Definition c_env := env game move.
+(* the chess search for arbitrary poll / stop oracles *)
+Definition chess_search (pollp : N -> bool) (stop_at : nat -> bool) (bypass : bool) (g : game) (depth : Z) (t : tt) (rt : list N) (ri : nat) :=
+  search generate_moves c_make null_move evaluate (fun g => is_in_check g (white g)) hash c_half100
+         move_eqb mcap c_promo c_hidx c_cap_score NULL_MOVE is_legal pollp stop_at bypass g depth t rt ri.
+Definition chess_negamax (pollp : N -> bool) (stop_at : nat -> bool) (bypass : bool) (fuel : nat) :=
+  negamax generate_moves c_make null_move evaluate (fun g => is_in_check g (white g)) hash c_half100
+          move_eqb mcap c_promo c_hidx c_cap_score NULL_MOVE pollp stop_at bypass fuel.
+Definition chess_quiescence (pollp : N -> bool) (stop_at : nat -> bool) (fuel : nat) :=
+  quiescence generate_moves c_make evaluate hash c_half100 move_eqb mcap c_hidx c_cap_score NULL_MOVE pollp stop_at fuel.
+(* the instance the correspondence check runs: the engine's cadence + hook polls, stop from the k-th poll on *)
 Definition c_search (extra : N) (stopk : Z) (bypass : bool) (g : game) (depth : Z) (t : tt) (rt : list N) (ri : nat) :=
-  search game move generate_moves c_make null_move evaluate (fun g => is_in_check g (white g)) hash c_half100
-         move_eqb mcap c_promo c_hidx c_cap_score NULL_MOVE is_legal (c_pollp extra) (c_stop_at stopk) bypass g depth t rt ri.
+  chess_search (c_pollp extra) (c_stop_at stopk) bypass g depth t rt ri.
 
 
 (* ---- cmove.rs to_uci ---- *)
@@ -42,9 +51,9 @@ Definition string_of_N (n : N) : string := NilZero.string_of_uint (N.to_uint n).
 (* the lines search() prints; the elapsed time is not modelled and rendered as T *)
 Definition render_out (o : out move) : string :=
   match o with
-  | OInfo _ score mate depth nodes pv =>
+  | OInfo score mate depth nodes pv =>
     ("info score " ++ (match mate with Some n => "mate " ++ string_of_Z n | None => "cp " ++ string_of_Z score end) ++
      " depth " ++ string_of_N (N.of_nat depth) ++ " nodes " ++ string_of_N nodes ++ " time T pv " ++
      fold_right (fun m acc => to_uci m ++ " " ++ acc) "" pv)%string
-  | OBest _ m => ("bestmove " ++ to_uci m)%string
+  | OBest m => ("bestmove " ++ to_uci m)%string
   end.
